@@ -38,10 +38,10 @@ def run(chk, repo):
     chk.rule("C17-M3", "the microsecond stamp is rebased on the same record's acquisition date", 2)
     chk.rule("C17-M4", "the (year, day_of_year, milliseconds) triple is three Int32ub in that order", 2)
     chk.rule("C17-M5", "strptime formats fit the field shapes", 2)
-    m1(chk, repo)
-    m2(chk, repo)
-    m3(chk, repo)
-    m5(chk, repo)
+    chk.attempt(m1, chk, repo)
+    chk.attempt(m2, chk, repo)
+    chk.attempt(m3, chk, repo)
+    chk.attempt(m5, chk, repo)
     chk.count("functions", 8)
 
 
@@ -107,8 +107,11 @@ def doy_corrected(repo, fi):
                 const_term = d.get((), 0)
                 atoms = [m for m in d if m != ()]
                 for m in atoms:
-                    if len(m) == 1 and d[m] == 1 and "day_of_year" in repr(m[0]) and const_term == -1:
+                    exact = len(m) == 1 and m[0][0] == "sub" and m[0][2] == ("const", "str", "day_of_year")
+                    if exact and d[m] == 1 and const_term == -1 and len(atoms) == 1:
                         return True, f"{short(n, 40)} = day_of_year - 1"
+                    if len(m) == 1 and d[m] == 1 and "day_of_year" in repr(m[0]) and not exact and const_term == -1:
+                        return False, f"day_of_year is not used as written but as {show(m[0])[:80]} before the -1 correction (admissible days are altered, e.g. day 366 of a leap year)"
         if isinstance(n, ast.BinOp) and isinstance(n.op, ast.Sub):
             r = norm(flow.expand(n.right))
             if re.search(r"timedelta(64)?\((days=)?1(, *'D')?\)", r.replace('"', "'")):
